@@ -14,6 +14,8 @@ sys.path.insert(0, VERIF)
 from symx import run as R          # noqa: E402
 
 FINDINGS_FILE = os.path.join(VERIF, 'known_findings.json')
+# mutant runs redirect their output so they never touch committed evidence
+OUT = os.environ.get('VERIF_OUT', VERIF)
 NCPU = int(os.environ.get('VERIF_JOBS', '16'))
 
 
@@ -166,8 +168,8 @@ def main(prop, build_jobs, harnesses, assumptions, describe=None):
             harness='*', params={},
             why='reachability goals not hit (vacuity guard): %r' % missing))
     # 4. report
-    os.makedirs(os.path.join(VERIF, 'replays'), exist_ok=True)
-    os.makedirs(os.path.join(VERIF, 'evidence'), exist_ok=True)
+    os.makedirs(os.path.join(OUT, 'replays'), exist_ok=True)
+    os.makedirs(os.path.join(OUT, 'evidence'), exist_ok=True)
     vio_lines = []
     seen = set()
     for v in confirmed:
@@ -183,7 +185,7 @@ def main(prop, build_jobs, harnesses, assumptions, describe=None):
         seen.add(key)
         name = '%s-%s.json' % (prop, hashlib.sha256(
             blob.encode()).hexdigest()[:12])
-        path = os.path.join(VERIF, 'replays', name)
+        path = os.path.join(OUT, 'replays', name)
         open(path, 'w').write(blob)
         line = 'VIOLATION property=%s replay=%s' % (prop, path)
         vio_lines.append(line)
@@ -220,7 +222,7 @@ def main(prop, build_jobs, harnesses, assumptions, describe=None):
             'concretely on the real module'),
         assumptions=list(assumptions),
         wall_s=round(wall, 2), violations=len(vio_lines))
-    json.dump(ev, open(os.path.join(VERIF, 'evidence', prop + '.json'), 'w'),
+    json.dump(ev, open(os.path.join(OUT, 'evidence', prop + '.json'), 'w'),
               indent=1, sort_keys=True, default=str)
     print('%s tier=%s paths=%d obligations=%d/%d queries=%d solver=%.1fs '
           'witnesses=%d wall=%.1fs' % (
